@@ -3,8 +3,9 @@ from __future__ import annotations
 
 import ast
 
-from sa import source
+from sa import pat, source
 from sa.cfg import cfg_of, guards
+from sa.classes import is_logging_stmt
 from sa.source import AnchorMissing, arg_of, bind_args, dotted, inline, is_self_attr, last_attr, local_defs, params_of, short, u, walk_body
 from sa.sym import comparison, parse_expr, rat_equal
 
@@ -15,7 +16,7 @@ def inline_node(e, defs):
 _D = "esrally/driver/driver.py"
 _C = "esrally/client/context.py"
 
-EXPECTED_FLOW = {  # argument at the loop's sampler.add call  ->  Sample attribute it must land in
+EXPECTED_FLOW = {  # value of the request loop (label = its name in the frozen source; located by ROLE, see flow_roles)  ->  Sample attribute it must land in
     "self.task": "task",
     "self.client_id": "client_id",
     "sample_type": "sample_type",
@@ -43,6 +44,74 @@ def request_loop(drv):
     if not loops:
         raise AnchorMissing("request loop (async for over the schedule)")
     return call, loops[0]
+
+
+def _root(e, defs):
+    """Defining expression of a single-assignment local (pure alias chains `x = y` followed); any other expression is returned as it is."""
+    hops = 0
+    while isinstance(e, ast.Name) and e.id in defs and hops < 10:
+        e = defs[e.id]
+        hops += 1
+    return e
+
+
+def unpacked_result(run_call):
+    """Names the statement around the runner invocation unpacks the result triple into, by position; None unless it is a plain tuple of names."""
+    asg = source.enclosing_stmt(run_call)
+    if isinstance(asg, ast.Assign) and len(asg.targets) == 1 and isinstance(asg.targets[0], ast.Tuple) and all(isinstance(x, ast.Name) for x in asg.targets[0].elts):
+        return [x.id for x in asg.targets[0].elts]
+    return None
+
+
+def flow_roles(L, defs, ctxvar, total_start, res):
+    """label of EXPECTED_FLOW -> predicate deciding whether an argument expression of the loop's sampler.add call IS that value. The value is recognised by data flow only:
+    its position in the schedule tuple / in the unpacked runner result, the clock read defining it, its formula over the request context, the key popped from the meta data,
+    the schedule value assigned to it. Local variable names play no role (the labels are the names in the frozen source and only serve as stable obligation keys)."""
+    lt = [x.id if isinstance(x, ast.Name) else None for x in (L.target.elts if isinstance(L.target, ast.Tuple) else [])] + [None] * 3
+    ops, unit, meta = (list(res or []) + [None] * 3)[:3]
+
+    def inl(a):
+        return inline_node(a, defs)
+
+    def is_name(a, nm):
+        e = inl(a)
+        return nm is not None and isinstance(e, ast.Name) and e.id == nm
+
+    def clock(a, fn):  # a local assigned inside the loop from one read of the clock `fn`
+        d = _root(a, defs)
+        return isinstance(a, ast.Name) and isinstance(d, ast.Call) and dotted(d.func) == fn and L in list(source.ancestors(d))
+
+    def formula(a, text):
+        return ctxvar is not None and total_start is not None and rat_equal(inl(a), parse_expr(text))
+
+    def popped(a, key):  # <meta>.pop(key, None), directly or through a single-assignment local
+        return meta is not None and pat.is_(_root(a, defs), f"V_m.pop('{key}', None)", binds={"m": meta})
+
+    def assigned_from(a, src):  # the local of the loop that receives the schedule's value `src` on some path
+        return src is not None and isinstance(a, ast.Name) and any(
+            isinstance(n, ast.Assign) and isinstance(n.value, ast.Name) and n.value.id == src and any(isinstance(t, ast.Name) and t.id == a.id for t in n.targets) for n in ast.walk(L))
+
+    def clock_span(a):
+        e = inl(a)
+        return isinstance(e, ast.BinOp) and isinstance(e.op, ast.Sub) and clock(e.left, "time.perf_counter") and clock(e.right, "time.perf_counter")
+
+    return {
+        "self.task": lambda a: u(a) == "self.task",
+        "self.client_id": lambda a: u(a) == "self.client_id",
+        "sample_type": lambda a: is_name(a, lt[1]),  # second element of the schedule tuple
+        "request_meta_data": lambda a: is_name(a, meta),  # third element of the runner's result
+        "absolute_processing_start": lambda a: clock(a, "time.time"),  # the wall-clock stamp
+        "request_start": lambda a: ctxvar is not None and u(inl(a)) == f"{ctxvar}.request_start",
+        "latency": lambda a: isinstance(inl(a), ast.IfExp),  # the one value that depends on being throttled (its formula is O4.1's business)
+        "service_time": lambda a: formula(a, f"{ctxvar}.request_end - {ctxvar}.request_start"),
+        "processing_time": clock_span,  # difference of two monotonic clock reads of this iteration
+        "throughput": lambda a: popped(a, "throughput"),
+        "total_ops": lambda a: is_name(a, ops),  # first element of the runner's result
+        "total_ops_unit": lambda a: is_name(a, unit),  # second element of the runner's result
+        "time_period": lambda a: formula(a, f"{ctxvar}.request_end - {total_start}"),
+        "progress": lambda a: assigned_from(a, lt[2]),  # receives the schedule's percent-completed (third element of the schedule tuple)
+        "request_meta_data.pop('dependent_timing', None)": lambda a: popped(a, "dependent_timing"),
+    }
 
 
 def run(chk):
@@ -112,8 +181,9 @@ def run(chk):
     chk.ob("O4.1", "service_time = ctx.request_end - ctx.request_start", ok, st if st is not None else addc, detail)
     pt = arg_named("processing_time")
     ok = False
+    pend = pstart = None
     if pt is not None:
-        e = inline_node(pt, {k: v for k, v in defs.items() if k in (u(pt),)})
+        e = inline_node(pt, defs)  # clock reads stay opaque names (no_calls), pure temporaries are folded
         ok = isinstance(e, ast.BinOp) and isinstance(e.op, ast.Sub) and isinstance(e.left, ast.Name) and isinstance(e.right, ast.Name) \
             and e.left.id in defs and e.right.id in defs and dotted(getattr(defs[e.left.id], "func", None) or ast.Name(id="")) == "time.perf_counter" \
             and dotted(getattr(defs[e.right.id], "func", None) or ast.Name(id="")) == "time.perf_counter"
@@ -123,14 +193,17 @@ def run(chk):
     lat = arg_named("latency")
     ok_t = ok_b = ok_e = False
     thr_expr = None
+
+    def is_throttle_test(e):  # scheduled > 0, in either orientation (e already inlined)
+        return pat.is_(e, "V_s > 0", binds={"s": sched})
+
     if lat is not None:
-        le = defs.get(lat.id) if isinstance(lat, ast.Name) else lat
+        le = _root(lat, defs)
         if isinstance(le, ast.IfExp):
             thr_expr = inline_node(le.test, defs)
-            c = comparison(thr_expr)
-            ok_t = c is not None and ((u(c[0]) == sched and c[1] == ">" and source.is_const(c[2], 0)) or (u(c[2]) == sched and c[1] == "<" and source.is_const(c[0], 0)))
+            ok_t = is_throttle_test(thr_expr)
             ok_b = ctxvar is not None and rat_equal(inline_node(le.body, defs), parse_expr(f"{ctxvar}.request_end - ({total_start} + {sched})"))
-            ok_e = st is not None and u(inline_node(le.orelse, defs)) == u(inline_node(st, defs))
+            ok_e = st is not None and (u(inline_node(le.orelse, defs)) == u(inline_node(st, defs)) or rat_equal(inline_node(le.orelse, defs), inline_node(st, defs)))
             detail = f"latency = {u(inline_node(le.body, defs))} if {u(thr_expr)} else {u(inline_node(le.orelse, defs))}"
         else:
             detail = f"latency is not a conditional expression: {u(le) if le is not None else None}"
@@ -164,7 +237,7 @@ def run(chk):
     wn = g.node_of(Wn)
     ok = all(Wn in list(source.ancestors(r)) for r in runs)
     chk.ob("O4.2", "runner invoked inside the request context", ok, runs[0], "")
-    if pt is not None and 'pstart' in dir() and pstart:
+    if pt is not None and pstart is not None and pend is not None:
         ps_node = [n for n in ast.walk(L) if isinstance(n, ast.Assign) and isinstance(n.targets[0], ast.Name) and n.targets[0].id == pstart]
         pe_node = [n for n in ast.walk(L) if isinstance(n, ast.Assign) and isinstance(n.targets[0], ast.Name) and n.targets[0].id == pend]
         ok = bool(ps_node) and Wn not in list(source.ancestors(ps_node[0])) and g.dominated_by_nodes(wn, [g.node_of(ps_node[0])]) and not g.path_exists(wn, g.node_of(ps_node[0]), avoid=[Lh])
@@ -190,7 +263,7 @@ def run(chk):
     if at is not None and isinstance(at, ast.Name) and at.id in defs:
         an = [n for n in ast.walk(L) if isinstance(n, ast.Assign) and isinstance(n.targets[0], ast.Name) and n.targets[0].id == at.id]
         sleeps = [n for n in ast.walk(L) if isinstance(n, ast.Await) and "sleep" in u(n)]
-        ok = bool(an) and dotted(defs[at.id].func) == "time.time" and g.dominated_by_nodes(wn, [g.node_of(an[0])]) and \
+        ok = bool(an) and isinstance(defs[at.id], ast.Call) and dotted(defs[at.id].func) == "time.time" and g.dominated_by_nodes(wn, [g.node_of(an[0])]) and \
             not any(g.path_exists(g.node_of(an[0]), g.node_of(s), avoid=[Lh]) for s in sleeps)
         chk.ob("O4.2", "issue time stamp (wall clock) taken after the throttle wait and before the request", ok, an[0] if an else addc, "" if ok else "the stamp is taken before a wait (or not on every path)")
     else:
@@ -203,24 +276,28 @@ def run(chk):
     ok = False
     detail = "no sleep in the loop"
     for s in sleeps:
+        if not s.value.args:
+            continue
         argv = s.value.args[0]
         gs = guards(s, stop=L)
+        fs = pat.fact_nodes(s, stop=L)  # atomic guard facts: arm position, `not`, comparison orientation and conjunct order do not matter
         rest_def = defs.get(argv.id) if isinstance(argv, ast.Name) else argv
-        T_ok = rest_def is not None and rat_equal(inline_node(rest_def, {k: v for k, v in defs.items() if k != "rest"}), parse_expr(f"{total_start} + {sched} - time.perf_counter()"))
-        pos_guard = any(pol and comparison(t) is not None and u(comparison(t)[0]) == u(argv) and comparison(t)[1] == ">" and source.is_const(comparison(t)[2], 0) for t, pol in gs)
-        thr_guard = [t for t, pol in gs if pol and thr_expr is not None and u(inline_node(t, defs)) == u(thr_expr)]
-        only = len(gs) == 2
-        ok = T_ok and pos_guard and bool(thr_guard) and only
+        T_ok = rest_def is not None and rat_equal(inline_node(rest_def, {k: v for k, v in defs.items() if k != u(argv)}), parse_expr(f"{total_start} + {sched} - time.perf_counter()"))
+        pos_guard = [f for f in fs if pat.is_(f, "E_rest > 0", binds={"rest": u(argv)})]
+        # the wait is under the very throttle condition the latency formula tests (compared after inlining, so a flag variable or the spelled-out comparison both do)
+        thr_guard = [f for f in fs if thr_expr is not None and (u(inline_node(f, defs)) == u(thr_expr) or (is_throttle_test(thr_expr) and is_throttle_test(inline_node(f, defs))))]
+        only = len(fs) == 2
+        ok = T_ok and bool(pos_guard) and bool(thr_guard) and only
         detail = f"sleep({u(argv)}) with {u(argv)} = {u(rest_def) if rest_def is not None else '?'} under {[(u(t), p) for t, p in gs]}"
         if ok:
             # the throttle `if` is on every path to the request
-            ift = source.parent(thr_guard[0]) if isinstance(source.parent(thr_guard[0]), ast.If) else source.enclosing(s, ast.If)
             top = [a for a in source.ancestors(s) if isinstance(a, ast.If) and source.parent(a) is L]
             ok = bool(top) and g.dominated_by_nodes(wn, [g.node_of(top[0])])
             # rest is computed after the time base: `now()` read inside the throttled branch
             break
     chk.ob("O4.3", "sleep-until on the scheduled time precedes the request", ok, sleeps[0] if sleeps else L, detail)
-    chk.ob("O4.3", "cancellation test precedes waiting", isinstance(L.body[0], ast.If) and "cancel.is_set" in u(L.body[0].test), L.body[0], "")
+    first = next((s_ for s_ in L.body if not is_logging_stmt(s_)), L.body[0])  # first statement of the iteration, logging aside
+    chk.ob("O4.3", "cancellation test precedes waiting", isinstance(first, ast.If) and "cancel.is_set" in u(first.test), first, "")
 
     # ---- O4.4 one sample per request -----------------------------------------------------------------------------------------------------------------
     chk.rule("O4.4", "on every normal path from the runner invocation to the next iteration or loop exit exactly one sampler.add call is passed", 3,
@@ -254,13 +331,16 @@ def run(chk):
     for n in walk_body(sample_init):
         if isinstance(n, ast.Assign) and len(n.targets) == 1 and is_self_attr(n.targets[0]) and isinstance(n.value, ast.Name):
             attr_of_param[n.value.id] = n.targets[0].attr
-    flow = {}
+    attr_of_add_param = {}  # Sampler.add parameter -> Sample attribute (through the Sample(...) construction)
     for sp, e in b2.items():
         if isinstance(e, ast.Name) and e.id in b1:
-            flow[u(b1[e.id])] = attr_of_param.get(sp)
+            attr_of_add_param[e.id] = attr_of_param.get(sp)
+    roles = flow_roles(L, defs, ctxvar, total_start, unpacked_result(runs[0]))
     for src_expr, want in EXPECTED_FLOW.items():
-        got = flow.get(src_expr)
-        chk.ob("O4.5", f"{src_expr} -> Sample.{want}", got == want, addc, f"lands in Sample.{got}", key=f"{_D}:flow:{src_expr}->{want}")
+        hits = [p for p, a in b1.items() if roles[src_expr](a)]  # parameters of Sampler.add that receive the value with this role
+        got = sorted({str(attr_of_add_param.get(p)) for p in hits})
+        chk.ob("O4.5", f"{src_expr} -> Sample.{want}", got == [want], addc, f"lands in Sample.{', '.join(got) if got else None}" + ("" if hits else " (no argument of sampler.add carries this value)"),
+               key=f"{_D}:flow:{src_expr}->{want}")
     ts = b2.get("task_start")
     from rules.C01 import executor_wiring
 
@@ -312,8 +392,11 @@ def trace_hook_table(chk, rid, repo):
 
 
 def check_execute_single(chk, drv, RID, runs=()):
-    """Uniform error result and abort policy of execute_single (shared by C04/O4.6 and C09/O9.5b)."""
-    g = None
+    """Uniform error result and abort policy of execute_single (shared by C04/O4.6 and C09/O9.5b).
+    The three result variables are located by role, not by name: they are the names at positions 0/1/2 of the function's single result tuple, and that tuple is tied to its meaning
+    through the stable dict keys of the runner protocol (position 0 receives return_value.pop('weight', ..), position 1 .pop('unit', ..), position 2 is the dict carrying 'success')."""
+    from sa.sym import truth_table, UnknownAtom
+
     # ---- O4.6 uniform error result ------------------------------------------------------------------------------------------------------------------
     chk.rule(RID, "execute_single: every absorbing handler yields success False and zero ops; the final raise is controlled by not success and (on_error == 'abort' or fatal); "
              "fatal only for the exact ConnectionError type", 5,
@@ -323,34 +406,41 @@ def check_execute_single(chk, drv, RID, runs=()):
     trys = [n for n in walk_body(es) if isinstance(n, ast.Try)]
     if not trys:
         raise AnchorMissing("try in execute_single")
+    rets = [n for n in es.body if isinstance(n, ast.Return)]
+    rv = _root(rets[0].value, local_defs(es)) if len(rets) == 1 and rets[0].value is not None else None  # the tuple itself or a single-assignment temporary holding it
+    triple = [x.id for x in rv.elts] if isinstance(rv, ast.Tuple) and len(rv.elts) == 3 and all(isinstance(x, ast.Name) for x in rv.elts) else None
+    ops_v, unit_v, meta_v = triple or (None, None, None)
+
+    def assigns_to(root, name):
+        return [n for n in ast.walk(root) if name is not None and isinstance(n, ast.Assign) and len(n.targets) == 1 and isinstance(n.targets[0], ast.Name) and n.targets[0].id == name]
+
     for h in trys[0].handlers:
-        hn = g_nodes = [x for x in ge.by_ast.get(id(h), [])]
+        hn = [x for x in ge.by_ast.get(id(h), [])]
         absorbing = any(ge.exit.id in ge.reachable([x]) for x in hn)
         tname = u(h.type) if h.type is not None else "<bare>"
         if not absorbing:
             chk.ob(RID, f"handler {tname} raises on every path", True, h, "")
             continue
-        md = [n for s in h.body for n in ast.walk(s) if isinstance(n, ast.Assign) and isinstance(n.targets[0], ast.Name) and n.targets[0].id == "request_meta_data" and isinstance(n.value, ast.Dict)]
+        md = [n for s in h.body for n in assigns_to(s, meta_v) if isinstance(n.value, ast.Dict)]
         ok = bool(md) and any(source.is_const(k, "success") and source.is_const(v, False) for k, v in zip(md[0].value.keys, md[0].value.values)) and not guards(md[0], stop=h)
-        chk.ob(RID, f"handler {tname}: success False", ok, h, "")
-        ops = [n for s in h.body for n in ast.walk(s) if isinstance(n, ast.Assign) and isinstance(n.targets[0], ast.Name) and n.targets[0].id == "total_ops"]
+        chk.ob(RID, f"handler {tname}: success False", ok, h, "" if triple else "the result triple of execute_single could not be identified")
+        ops = [n for s in h.body for n in assigns_to(s, ops_v)]
         ok = bool(ops) and source.is_const(ops[0].value, 0) and not guards(ops[0], stop=h)
-        chk.ob(RID, f"handler {tname}: zero ops", ok, h, "")
-    raises = [n for n in es.body if isinstance(n, ast.If)]
+        chk.ob(RID, f"handler {tname}: zero ops", ok, h, "" if triple else "the result triple of execute_single could not be identified")
+    # error flags: locals set to True inside a handler of the request's try (the flag the abort condition may consult in addition to on_error)
+    flags = {n.targets[0].id for h in trys[0].handlers for n in ast.walk(h) if isinstance(n, ast.Assign) and len(n.targets) == 1 and isinstance(n.targets[0], ast.Name) and source.is_const(n.value, True)}
     fin = [n for n in walk_body(es) if isinstance(n, ast.Raise) and not any(isinstance(a, (ast.ExceptHandler, ast.Try)) for a in source.ancestors(n) if a is not es)]
     ok = False
     detail = "no final raise"
     if fin:
         gs = guards(fin[0])
-        from sa.sym import truth_table, UnknownAtom
 
         def classify(n):
-            t = u(n)
-            if t in ("request_meta_data['success']",):
+            if meta_v is not None and pat.is_(n, "V_m['success']", binds={"m": meta_v}):
                 return "success"
-            if t in ("on_error == 'abort'", "'abort' == on_error"):
+            if pat.is_(n, "on_error == 'abort'"):
                 return "abort"
-            if t == "fatal_error":
+            if isinstance(n, ast.Name) and n.id in flags:
                 return "fatal"
             return None
 
@@ -372,17 +462,45 @@ def check_execute_single(chk, drv, RID, runs=()):
         except UnknownAtom as e:
             detail = f"foreign atom in the abort condition: {e}"
     chk.ob(RID, "abort condition == not success and (abort or fatal)", ok, fin[0] if fin else es, detail)
-    fsets = [n for n in walk_body(es) if isinstance(n, ast.Assign) and isinstance(n.targets[0], ast.Name) and n.targets[0].id == "fatal_error" and source.is_const(n.value, True)]
-    ok = bool(fsets) and all(any(pol and u(t) in ("type(e) is elasticsearch.ConnectionError", "type(e) == elasticsearch.ConnectionError") for t, pol in guards(n)) for n in fsets)
+    # every assignment that can raise an error flag (anything but the constant False) is under the exact-type test of the handler's own exception
+    fsets = [n for n in walk_body(es) if isinstance(n, ast.Assign) and len(n.targets) == 1 and isinstance(n.targets[0], ast.Name) and n.targets[0].id in flags and not source.is_const(n.value, False)]
+
+    def exact_connection_error(n):
+        h = source.enclosing(n, ast.ExceptHandler)
+        if h is None or not h.name:
+            return False
+        return pat.guarded(n, "type(V_e) is elasticsearch.ConnectionError", "elasticsearch.ConnectionError is type(V_e)", "type(V_e) == elasticsearch.ConnectionError", stop=h, binds={"e": h.name}) is not None
+
+    ok = bool(fsets) and all(exact_connection_error(n) for n in fsets)
     chk.ob(RID, "fatal only for the exact ConnectionError type", ok, fsets[0] if fsets else es, "")
-    rets = [n for n in es.body if isinstance(n, ast.Return)]
-    ok = len(rets) == 1 and isinstance(rets[0].value, ast.Tuple) and [u(x) for x in rets[0].value.elts] == ["total_ops", "total_ops_unit", "request_meta_data"]
-    chk.ob(RID, "uniform result triple", ok, rets[0] if rets else es, "")
-    # unpacked in the loop in the same order
+    # the single result tuple carries (number of operations, their unit, meta data) in this order: tied to the runner protocol's dict keys
+    ok = triple is not None and len(set(triple)) == 3
+    detail = ""
+    if ok:
+        by_key = {}
+        for key_ in ("weight", "unit"):
+            by_key[key_] = {n.targets[0].id for n in walk_body(es) if isinstance(n, ast.Assign) and len(n.targets) == 1 and isinstance(n.targets[0], ast.Name)
+                            and isinstance(n.value, ast.Call) and last_attr(n.value.func) == "pop" and n.value.args and source.is_const(n.value.args[0], key_)}
+        success_dicts = {n.targets[0].id for n in walk_body(es) if isinstance(n, ast.Assign) and len(n.targets) == 1 and isinstance(n.targets[0], ast.Name) and isinstance(n.value, ast.Dict)
+                         and any(source.is_const(k, "success") for k in n.value.keys)}
+        ok = by_key["weight"] == {ops_v} and by_key["unit"] == {unit_v} and success_dicts == {meta_v}
+        detail = f"returns ({', '.join(triple)}); 'weight' -> {sorted(by_key['weight'])}, 'unit' -> {sorted(by_key['unit'])}, success dict -> {sorted(success_dicts)}"
+    chk.ob(RID, "uniform result triple", ok, rets[0] if rets else es, detail)
+    # unpacked in the loop in the same order: position i of the unpacking is the value handed to the sampler as ops / ops_unit / meta_data
     for r in runs:
         asg = source.enclosing_stmt(r)
-        ok = isinstance(asg, ast.Assign) and isinstance(asg.targets[0], ast.Tuple) and [u(x) for x in asg.targets[0].elts] == ["total_ops", "total_ops_unit", "request_meta_data"]
-        chk.ob(RID, "result triple unpacked in order", ok, asg, "")
+        got = unpacked_result(r)
+        fn = source.enclosing_func(r)
+        adds = [n for n in ast.walk(fn) if isinstance(n, ast.Call) and u(n.func) == "self.sampler.add"] if fn is not None else []
+        ok = False
+        detail = "the runner's result is not unpacked into three names next to a self.sampler.add(...) call"
+        if got is not None and len(got) == 3 and len(set(got)) == 3 and adds:
+            defs_ = local_defs(fn)
+            b = bind_args(adds[0], drv.methods(drv.cls("Sampler"))["add"])
+            sent = [u(inline_node(b[p_], defs_)) if p_ in b else None for p_ in ("ops", "ops_unit", "meta_data")]
+            ok = sent == got
+            detail = f"unpacked as ({', '.join(got)}); sampler.add receives ops={sent[0]}, ops_unit={sent[1]}, meta_data={sent[2]}"
+        chk.ob(RID, "result triple unpacked in order", ok, asg, detail)
 
 
 
